@@ -30,7 +30,11 @@ def build_cases(tier, seed):
         steps = random_spec(s, prof)["sim"]["steps"]
         # no generators at all: nothing competes with the cancellation clock (drivers still act)
         ctrl = {"stack": []} if i % 2 == 0 else BUILTIN
-        cases.append(trace_case("C11", i, s, prof, ctrl, steps, ["C11"], opts=({"cosim_noops": 4 + i % 5} if i % 3 == 1 else {})))
+        opts = {"cosim_noops": 4 + i % 5} if i % 3 == 1 else {}
+        if i % 8 == 5:
+            # a booking system hands requests in between calls, some under a departure time that has already passed
+            opts = dict(opts, inject_requests={"every": 3, "public": not prof["fleets"], "backdate": True})
+        cases.append(trace_case("C11", i, s, prof, ctrl, steps, ["C11"], opts=opts))
     # time stamps in inputs and logs are UTC whatever the host's time zone: every third case runs in a process set to another zone
     for k, c in enumerate(cases):
         if k % 3 == 2:
